@@ -70,11 +70,11 @@ func c19NewWorld() *c19World {
 	k0, k1 := ks.get("ed25519", "server0"), ks.get("ecdsa", "server1")
 	return &c19World{keys: ks, sess: map[string]*c19Sess{}, chBy: map[string]*c19Sess{}, tokBy: map[string]*c19Sess{}, sigs: map[string]struct{}{},
 		servers: []*c19Server{
-			{label: "S0(key0,secretA,ttl=1h)", key: k0, secretID: 0, secret: secA, ttl: time.Hour},
-			{label: "S1(key1,secretB,ttl=2m)", key: k1, secretID: 1, secret: secB, ttl: 2 * time.Minute},
+			{label: "S0(ed25519 key0,secretA,ttl=1h)", key: k0, secretID: 0, secret: secA, ttl: time.Hour},
+			{label: "S1(ecdsa key1,secretB,ttl=2m)", key: k1, secretID: 1, secret: secB, ttl: 2 * time.Minute},
 			// replay targets only:
-			{label: "S2(key0,secretB,ttl=1h)", key: k0, secretID: 1, secret: secB, ttl: time.Hour},
-			{label: "S3(key1,secretA,ttl=1h)", key: k1, secretID: 0, secret: secA, ttl: time.Hour},
+			{label: "S2(ed25519 key0,secretB,ttl=1h)", key: k0, secretID: 1, secret: secB, ttl: time.Hour},
+			{label: "S3(ecdsa key1,secretA,ttl=1h)", key: k1, secretID: 0, secret: secA, ttl: time.Hour},
 		}}
 }
 
@@ -523,11 +523,6 @@ func TestVerifC19Server(t *testing.T) {
 		return
 	}
 
-	if os.Getenv("VERIF_C19_DUMP") != "" {
-		for _, s := range w.order {
-			t.Logf("session %s a2=%x len=%d clientid=%s", s.name(), c19Hash(s.a2), len(s.a2), s.client.id)
-		}
-	}
 	opts := c19GenOpts{masks: []byte{0x01, 0x80, 0xff}}
 	if vrep.Thorough() {
 		opts.masks = []byte{0x01, 0x02, 0x04, 0x08, 0x10, 0x20, 0x40, 0x80, 0xff}
@@ -539,11 +534,10 @@ func TestVerifC19Server(t *testing.T) {
 	r.Bounds["challenge_ttl"] = c19ChallengeTTL.String()
 
 	seen := map[uint64]struct{}{}
-	var generated, sigChecks int64
+	var generated, sigChecks, otherHostTokens int64
 	sampled := map[string]bool{}
 	kinds := map[string]struct{}{}
-	detail := map[string]int{} // debug dump only
-	capped := false
+	detail := map[string]int{} // per-kind outcome table, written to $VERIF_C19_DUMP when set (debugging aid)
 
 sessions:
 	for _, s := range w.order {
@@ -578,7 +572,6 @@ sessions:
 		for _, off := range offList {
 			if time.Now().After(deadline) {
 				r.Cap("deadline reached at session %s offset %s", s.name(), off)
-				capped = true
 				break sessions
 			}
 			c19Bubble(t, off, func() {
@@ -621,6 +614,9 @@ sessions:
 								fmt.Sprintf("%s called Next with peer %s for a request (Host %q, %s after the session was recorded, mutation %s %s of step %d of session %s) although %s. Authorization: %s",
 									y.label, w.keys.name(out.peer), c.host, c19Dur(off), c.kind, c.det, c.step, s.name(), why, c19Trunc(strings.Join(c.authz, " || "), 700)), rp)
 						}
+						if c.step == 3 && strings.HasPrefix(c.kind, "host/") {
+							otherHostTokens++
+						}
 						if out.next > 1 {
 							r.Note("Next called %d times for one request (%s)", out.next, c.kind)
 						}
@@ -644,8 +640,10 @@ sessions:
 			})
 		}
 	}
-	_ = capped
 	r.Bounds["mutation_kinds_executed"] = len(kinds)
+	if otherHostTokens > 0 {
+		r.Note("%d requests presenting an unexpired bearer token under another hostname accepted by ValidHostnameFn reached Next (the handler does not compare the token's hostname; the statement does not require it): same peer, counted as proven", otherHostTokens)
+	}
 	if w.nvar > 0 {
 		r.Note("%d accepted requests carried a signature that is not byte-identical to any signature a key holder produced but that the key type's Verify accepts (e.g. %v): same peer, counted as proven", w.nvar, w.variant)
 	}
@@ -673,6 +671,10 @@ func c19ReplayServer(t *testing.T, path string) {
 		return
 	}
 	w := c19NewWorld()
+	for _, kt := range c19KeyTypes { // so that reported peers can be named
+		w.keys.get(kt, "client0")
+		w.keys.get(kt, "client1")
+	}
 	rp := f.Replay
 	c19Bubble(t, time.Duration(rp.Offset), func() {
 		out := w.servers[rp.Server].serve(rp.Host, rp.Authz, false)
